@@ -74,7 +74,19 @@ fn run_probe(ctx: &Ctx, w: &Written, tag: &str) -> Result<Value, String> {
         std::fs::create_dir_all(&ctx.scratch).ok();
         let path = ctx.scratch.join(format!("probe-{}.cfg", tag));
         let mut txt = String::new();
-        for (k, v) in &w.pairs {
+        // key order carries no meaning (unless verbatim lines make it part of the scenario)
+        let mut pairs = w.pairs.clone();
+        if !pairs.iter().any(|(k, _)| k.starts_with("__raw__")) {
+            match fnv64(tag.as_bytes()) % 3 {
+                1 => pairs.reverse(),
+                2 => {
+                    let n = pairs.len();
+                    pairs.rotate_left(2 % n.max(1));
+                }
+                _ => {}
+            }
+        }
+        for (k, v) in &pairs {
             if k.starts_with("__raw__") {
                 txt.push_str(v);
                 txt.push('\n');
